@@ -84,7 +84,7 @@ Lemma allocSegment_spec m sz m' id :
   (forall i, 0 <= i -> bs_data (get_seg m' i) = bs_data (get_seg m i)) /\
   (forall i, 0 <= i -> i <> id -> get_seg m' i = get_seg m i) /\
   bs_cap (get_seg m id) <= bs_cap (get_seg m' id) /\
-  zlen (bm_segs m) <= zlen (bm_segs m') /\
+  zlen (bm_segs m) <= zlen (bm_segs m') <= zlen (bm_segs m) + 1 /\
   bm_arena m' = bm_arena m /\ bm_caps m' = bm_caps m /\ bm_rl m' = bm_rl m.
 Proof.
   intros Hwf Har Hsz. unfold allocSegment.
@@ -202,7 +202,7 @@ Theorem alloc_fresh m sid sz m' sid' addr :
   blen (get_seg m' sid') <= maxSegmentSize /\
   (forall i, 0 <= i -> i <> sid' -> bs_data (get_seg m' i) = bs_data (get_seg m i)) /\
   (forall i, 0 <= i -> bs_cap (get_seg m i) <= bs_cap (get_seg m' i)) /\
-  zlen (bm_segs m) <= zlen (bm_segs m') /\
+  zlen (bm_segs m) <= zlen (bm_segs m') <= zlen (bm_segs m) + 1 /\
   bmsg_wf m' /\ arena_wf m' /\
   bm_arena m' = bm_arena m /\ bm_caps m' = bm_caps m /\ bm_rl m' = bm_rl m.
 Proof.
@@ -217,7 +217,7 @@ Proof.
             blen (get_seg m1 sid1) + n <= bs_cap (get_seg m1 sid1) /\
             (forall i, 0 <= i -> bs_data (get_seg m1 i) = bs_data (get_seg m i)) /\
             (forall i, 0 <= i -> bs_cap (get_seg m i) <= bs_cap (get_seg m1 i)) /\
-            zlen (bm_segs m) <= zlen (bm_segs m1) /\
+            zlen (bm_segs m) <= zlen (bm_segs m1) <= zlen (bm_segs m) + 1 /\
             bm_arena m1 = bm_arena m /\ bm_caps m1 = bm_caps m /\ bm_rl m1 = bm_rl m).
   { intros m1 sid1. destruct (hasCapacity (get_seg m sid) n) eqn:EH.
     - intros [= <- <-]. assert (Hs := get_seg_wf m sid Hwf).
